@@ -339,14 +339,32 @@ func stress(t target, d time.Duration, nW, nR, nK int) error {
 	// sees memory that an interceptor passes on after its caller has taken it back). The upstream writers and
 	// readers behave like a frugal application: one header object, one payload buffer, one read buffer per
 	// goroutine, overwritten as soon as the call returns - which the interfaces permit.
-	sink := interceptor.RTPWriterFunc(consumeRTP)
-	rtcpSink := interceptor.RTCPWriterFunc(consumeRTCP)
+	// Round 4: the downstream writers and the upstream readers are user code too, and user code may call the public
+	// getters of the interceptor (the observer of the property text) - every 8th call does, so an interceptor that
+	// calls down / up the chain under the mutex its getters take stalls here and the watchdog reports it.
+	var userCalls atomic.Uint32
+	userCode := func() {
+		if observer != nil && userCalls.Add(1)%8 == 0 {
+			observer()
+		}
+	}
+	sink := interceptor.RTPWriterFunc(func(h *rtp.Header, p []byte, a interceptor.Attributes) (int, error) {
+		userCode()
+
+		return consumeRTP(h, p, a)
+	})
+	rtcpSink := interceptor.RTCPWriterFunc(func(pkts []rtcp.Packet, a interceptor.Attributes) (int, error) {
+		userCode()
+
+		return consumeRTCP(pkts, a)
+	})
 	_ = icpt.BindRTCPWriter(rtcpSink)
 	var rtcpRound, dbg atomic.Uint32
 	seqs := make([]atomic.Uint32, 4)
 	rtcpReader := icpt.BindRTCPReader(interceptor.RTCPReaderFunc(func(b []byte, a interceptor.Attributes) (int, interceptor.Attributes, error) {
 		round := rtcpRound.Add(1)
 		in := rtcpInput(round, uint16(seqs[round%2].Load()))
+		userCode()
 
 		return copy(b, in), a, nil
 	}))
@@ -358,6 +376,7 @@ func stress(t target, d time.Duration, nW, nR, nK int) error {
 		idx := s
 		readers[s] = icpt.BindRemoteStream(streamInfo(ssrc), interceptor.RTPReaderFunc(
 			func(b []byte, a interceptor.Attributes) (int, interceptor.Attributes, error) {
+				userCode()
 				seq := uint16(seqs[2+idx].Add(1))
 				if seq%17 == 0 {
 					seq += 2 // a gap now and then, so NACK / report paths have something to do
